@@ -1124,6 +1124,10 @@ def search_step_tie(c, thorough, replay_case=None):
     c.trusted += ["harness/h_c01s.c (dump of the lextree, of every HMM that is not in the cleared state, of the active list and "
                   "of the new history entries after every frame; pnode identity = pointer identity among the alloc_head lists) "
                   "+ the glue in tools/props/c01.py",
+                  "M10 lextree: LexTreeOK is proved for the lextree buildLexTree constructs from ANY FSG, pronunciations and ssid "
+                  "lookups (C01_build_lexTreeOK); that buildLexTree mirrors fsg_lextree_init rests on reading the code and is "
+                  "checked by exact equality with the real lextree on every decode of this run; the dict2pid tables are inputs "
+                  "(abstract functions), dumped through the macros the lextree code uses",
                   "M10: that the relation StepRel covers fsg_search_step for EVERY input rests on reading the code; it is "
                   "checked (stepRelB, proved sound) on every frame of the decodes of this run.  Two facts about scores are "
                   "used and checked per frame, not proved: a word exit fires only from a live exit score (the word beam "
@@ -1193,7 +1197,9 @@ def search_step_tie(c, thorough, replay_case=None):
                                      "(or the lextree / an invariant predicate is false on a dumped state): either the code no "
                                      "longer does what the model of the growth-stage theorems says, or the model is wrong",
                              "how_to_rerun": "python3 tools/check.py C01 --replay <this file>"}, False, tag="step")
-    c.oblige("growth stage (M10), correspondence: on every short decode LexTreeOK holds on the dumped lextree, the state before "
+    c.oblige("growth stage (M10), correspondence: on every short decode the lextree buildLexTree constructs from the dumped FSG, "
+             "pronunciations and ssid lookups EQUALS the lextree the code built (node by node: owner, leaf, link, succ, sibling, "
+             "ci_ext, ssid, tmatid, ppos, context set, logs2prob, root[s]), LexTreeOK holds on it, the state before "
              "fsg_search_start is all-cleared, startRelB holds for start, stepRelB for EVERY frame, searchInvB on every state, "
              "evalHist3 reproduces every evaluated HMM, finish = the model's finish, accumulated table = final table", ok_all)
     c.oblige("growth stage (M10): every stepped decode ran to completion (no sanitizer report, assert, exit, timeout)", ok_crash)
